@@ -41,6 +41,7 @@ func init() {
 			c.Clause("C04-D3")
 			ruleTokenRegister(c, "client")
 			ruleRegisterAfterSend(c)
+			ruleWatcherContextPairing(c)
 			c.Clause("C04-D4")
 			ruleTokenKeyed(c, "client")
 			ruleClientRouting(c)
@@ -62,6 +63,7 @@ func init() {
 			ruleTokenBuffered(c)
 			c.Clause("C05-D2")
 			ruleTokenRegister(c, "client")
+			ruleWatcherContextPairing(c)
 			ruleStopCancelsTable(c, "client", c.M.CPending, c.M.RCancel, "pending requests")
 			ruleStopCallsField(c, "client", c.M.CCbcancel, "callback handler contexts")
 			ruleStopOnce(c, "client")
@@ -75,6 +77,7 @@ func init() {
 			ruleEveryPeerErrorFiltered(c)
 			c.Clause("C05-D5")
 			ruleHooks(c)
+			ruleStopResultInvoked(c)
 			c.Clause("C05-D6")
 			gos := ruleGo(c, clientGo(c), 4, "NewClient, accept, handleRequestLocked, send")
 			ruleLifetimeWaited(c, gos, chk.PathOfVar(c.M.Client, c.M.CDone).String(), 3, "client")
